@@ -18,7 +18,10 @@ import (
 	"runtime"
 	"sort"
 	"strconv"
+	"strings"
 	"sync"
+
+	"github.com/massnetorg/mass-core/poc"
 
 	"massnet.org/mass/config"
 	"massnet.org/mass/poc/engine"
@@ -166,7 +169,9 @@ func keeperCase(run *vh.Run, root *vh.Rng, i, ci int) {
 	rng := root.Derive("keeper", i)
 	dir := filepath.Join(run.Scratch, fmt.Sprintf("keeper-%d", i))
 	plots := filepath.Join(dir, "plots")
+	plots2 := filepath.Join(dir, "plots2") // a second proof directory: half of the cases put 1-3 more spaces there
 	os.MkdirAll(plots, 0o755)
+	os.MkdirAll(plots2, 0o755)
 	defer os.RemoveAll(dir)
 	defer runtime.GC() // plot files of the keepers are closed by finalizers
 	pub, priv := wl.FreshPass(rng), wl.FreshPass(rng)
@@ -197,7 +202,7 @@ func keeperCase(run *vh.Run, root *vh.Rng, i, ci int) {
 		det["trace"] = trace
 		run.Violate(ci, kind, attrs, det)
 	}
-	cfg := &config.Config{Miner: &config.Miner{ProofDir: []string{plots}}}
+	cfg := &config.Config{Miner: &config.Miner{ProofDir: []string{plots, plots2}}}
 	ski, err := capacity.NewSpaceKeeperV1(cfg, w.M)
 	if err != nil {
 		run.Drop("keeper construction failed: " + err.Error())
@@ -209,10 +214,33 @@ func keeperCase(run *vh.Run, root *vh.Rng, i, ci int) {
 		run.Drop(fmt.Sprintf("ConfigureByBitLength gave %d spaces, err %v", len(infos), err))
 		return
 	}
+	n2 := 0
+	if rng.Bool() {
+		n2 = rng.Range(1, 3)
+		trace = append(trace, fmt.Sprintf("keeper 1: ConfigureByPath(second directory, %d x PlotSize(24))", n2))
+		if _, err := k1.ConfigureByPath([]string{plots2}, []int{n2 * int(poc.ProofTypeDefault.PlotSize(24))}, false, false); err != nil {
+			run.Drop("ConfigureByPath on the second directory failed: " + err.Error())
+			return
+		}
+	}
+	n += n2
+	listing := func() []string {
+		var out []string
+		for _, d := range []string{plots, plots2} {
+			es, _ := os.ReadDir(d)
+			for _, e := range es {
+				out = append(out, filepath.Base(d)+"/"+e.Name())
+			}
+		}
+		sort.Strings(out)
+		return out
+	}
+	filesBefore := listing()
 	created := map[string]int{} // space id -> ordinal in its file name
 	var ords []int
 	ents, _ := os.ReadDir(plots)
-	for _, e := range ents {
+	ents2, _ := os.ReadDir(plots2)
+	for _, e := range append(ents, ents2...) {
 		m := plotNameRe.FindStringSubmatch(e.Name())
 		if m == nil {
 			continue
@@ -267,6 +295,9 @@ func keeperCase(run *vh.Run, root *vh.Rng, i, ci int) {
 		}
 	}
 	sort.Strings(missing)
+	if after := listing(); strings.Join(after, "|") != strings.Join(filesBefore, "|") {
+		viol("restart-changed-plot-directories", map[string]string{"second_directory_used": fmt.Sprint(n2 > 0)}, map[string]interface{}{"files_before": filesBefore, "files_after": after})
+	}
 	run.Count("keeper_restarts_compared", 1)
 	run.Count("plot_files_reindexed", int64(len(created)-len(missing)))
 	if len(missing) > 0 {
